@@ -1,4 +1,6 @@
 import Rsp.Model.Ttl
+import Rsp.Model.TlsAttr
+import Rsp.Model.Merge
 import Rsp.Generated.Facts
 import Rsp.Spec.Ttl
 import Rsp.Spec.Choose
@@ -417,14 +419,11 @@ def tlsconnModel (args tr : List String) : String :=
        (match blocks.mapM (tlsBlk srcb certToks tr) with
         | none => "bad-op"
         | some bs =>
-          let cands := bs.filter (·.addrMatch)
-          match cands.head? with
-          | none => "tlsconn none"
-          | some first =>
-            if kvTok certToks "ca" == some "other" then "tlsconn none" else
-            match cands.find? fun c => c.tls = first.tls && c.certOk with
-            | some c => "tlsconn attributed:" ++ c.name
-            | none => "tlsconn none")
+          -- (the decision itself: Rsp.Model.TlsAttr, theorems in Rsp.Props.C14Tls)
+          match TlsAttr.attributeTo (kvTok certToks "ca" != some "other")
+                  (bs.map fun b => { name := b.name, tls := b.tls, addrMatch := b.addrMatch, certOk := b.certOk }) with
+          | some c => "tlsconn attributed:" ++ c.name
+          | none => "tlsconn none")
      | _, _ => "bad-op")
   | _ => "bad-op"
 
@@ -564,7 +563,7 @@ def dynRetry (T B : String) : Option (Nat × Nat × Nat) :=
     let tab := if tt = 2 then Rsp.Generated.protodefs_tcp else if tt = 3 then Rsp.Generated.protodefs_dtls else none
     tab.bind fun tab =>
       match tab with
-      | [rcd, _, rid, _, _] => some (tt, (brc.orElse fun _ => trc).getD rcd, (bri.orElse fun _ => tri).getD rid)
+      | [rcd, _, rid, _, _] => some (tt, Merge.withDefault brc trc rcd, Merge.withDefault bri tri rid)
       | _ => none
   | _, _ => none
 
@@ -631,11 +630,11 @@ def model (op : String) (args : List String) : String :=
       -- the name-check flags: CertificateNameCheck is what the printed block says, else the template's; CertificateCNCheck is what the
       -- printed block says (off when it says nothing)
       let cert := match parseTBcert T, parseTBcert B with
-        | some (_, some tnc), some (bcn, bnc) => s!" cn={bcn.getD 0} nc={bnc.getD tnc}"
+        | some (_, some tnc), some (bcn, bnc) => s!" cn={Merge.cnCheck bcn} nc={Merge.nameCheck bnc tnc}"
         | _, _ => ""
       -- LoopPrevention: what the printed block says, else what the template block says (255 = said nowhere)
       let lp := match parseTBloop T, parseTBloop B with
-        | some tlp, some blp => s!" lp={(blp.orElse fun _ => tlp).getD 255}"
+        | some tlp, some blp => s!" lp={(Merge.inherited blp tlp).getD 255}"
         | _, _ => ""
       base ++ s!" type={t} rc={rc} ri={ri}" ++ cert ++ lp
     | none => "bad-op"
@@ -763,7 +762,7 @@ def spec (op : String) (args impl : List String) : String :=
               -- C13: LoopPrevention "for the server" - a discovered server is protected when its printed block or its template says so
               (match parseTBloop T, parseTBloop B, impl.drop 8 with
                | some tlp, some blp, [lp] =>
-                 if lp != s!"lp={(blp.orElse fun _ => tlp).getD 255}" then
+                 if lp != s!"lp={(Merge.inherited blp tlp).getD 255}" then
                    "bad C13:LoopPrevention-of-a-discovered-server-not-as-configured:" ++ lp
                  else "ok"
                | _, _, _ => "ok")
